@@ -15,12 +15,15 @@ its surface shape:
       InlineJump their exact control flow (returns nested in loops or try
       blocks included).
   N3  setattr(x, "name", v) / getattr(x, "name") with a constant identifier -> plain attribute store / load.
+  N5  statement-level conditional expressions: `x = A if C else B` / `return A if C else B` -> if / else statements.
+  N6  `x = A or B` with A a plain name / attribute -> `if A: x = A else: x = B`.
   N4  quantifier loops: `for T in XS: if C: return K` -> `if any(C for T in XS): return K` (all() for a negated C) and
       `if any(G): return True; return False` -> `return any(G)`.
   N2  unrolling of `for` loops over a literal list / tuple display (or over a
       class / module constant that is such a display and is not in
       spec/known_functions.json's constants) of at most 8 items without
-      break / continue in the body; constant items are substituted for the loop variables.
+      break / continue in the body (also zip(..) / enumerate(..) of such displays, and locals bound once to one); constant items
+      are substituted for the loop variables.
 
 Every rewrite preserves behaviour (up to local names), so a rule that holds on
 the normal form holds on the source.  A call that cannot be inlined is left
@@ -176,6 +179,26 @@ class _AttrCalls(ast.NodeTransformer):
                 and isinstance(node.args[1], ast.Constant) and isinstance(node.args[1].value, str) and node.args[1].value.isidentifier():
             return ast.copy_location(ast.Attribute(value=node.args[0], attr=node.args[1].value, ctx=ast.Load()), node)
         return node
+
+
+def _single_displays(fdef):
+    """{name: display} for locals assigned exactly once, at function level, to a list / tuple display of names, attributes and constants"""
+    count, disp = {}, {}
+    for x in ast.walk(fdef):
+        if isinstance(x, ast.Name) and isinstance(x.ctx, (ast.Store, ast.Del)):
+            count[x.id] = count.get(x.id, 0) + 1
+    for st in fdef.body:
+        if isinstance(st, ast.Assign) and len(st.targets) == 1 and isinstance(st.targets[0], ast.Name) and isinstance(st.value, (ast.List, ast.Tuple)) \
+                and all(_side_effect_free(e) for e in st.value.elts):
+            disp[st.targets[0].id] = st.value
+    return {k: v for k, v in disp.items() if count.get(k) == 1}
+
+
+def _side_effect_free(e):
+    """a plain name / attribute chain / constant: may be evaluated twice without anyone noticing"""
+    while isinstance(e, ast.Attribute):
+        e = e.value
+    return isinstance(e, (ast.Name, ast.Constant))
 
 
 def _negate(c):
@@ -468,7 +491,7 @@ class Normalizer:
         if getattr(fdef, "_normalised", False):
             return
         fdef._normalised = True
-        state = {"locals": _local_names(fdef), "caller": stack[0]}
+        state = {"locals": _local_names(fdef), "caller": stack[0], "displays": _single_displays(fdef)}
         fdef.body = self._stmts(fdef.body, modname, cname, stack, state)
 
     def _stmts(self, stmts, modname, cname, stack, state):
@@ -518,6 +541,29 @@ class Normalizer:
             for h in st.handlers:
                 h.body = rec(h.body)
             return [st]
+        if isinstance(st, (ast.Assign, ast.Return)) and isinstance(getattr(st, "value", None), ast.IfExp):
+            # N5: x = A if C else B  ->  if C: x = A else: x = B   (same for return); evaluation order is unchanged
+            v = st.value
+
+            def mk(val):
+                s2 = copy.copy(st)
+                s2.value = val
+                if isinstance(st, ast.Assign):
+                    s2.targets = copy.deepcopy(st.targets)
+                return s2
+            new = ast.copy_location(ast.If(test=v.test, body=[mk(v.body)], orelse=[mk(v.orelse)]), st)
+            ast.fix_missing_locations(new)
+            return self._stmt(new, modname, cname, stack, state)
+        if isinstance(st, ast.Assign) and isinstance(st.value, ast.BoolOp) and isinstance(st.value.op, ast.Or) and len(st.value.values) == 2 \
+                and _side_effect_free(st.value.values[0]) and len(st.targets) == 1 and isinstance(st.targets[0], ast.Name):
+            # N6: x = A or B (A a plain name / attribute)  ->  if A: x = A else: x = B
+            a, b = st.value.values
+            s1, s2 = copy.copy(st), copy.copy(st)
+            s1.value, s2.value = copy.deepcopy(a), b
+            s1.targets, s2.targets = copy.deepcopy(st.targets), copy.deepcopy(st.targets)
+            new = ast.copy_location(ast.If(test=a, body=[s1], orelse=[s2]), st)
+            ast.fix_missing_locations(new)
+            return self._stmt(new, modname, cname, stack, state)
         if isinstance(st, (ast.Assign, ast.AnnAssign, ast.AugAssign, ast.Expr, ast.Return)):
             return self._hoist(st, "value", modname, cname, stack, state)
         return [st]
@@ -635,9 +681,22 @@ class Normalizer:
         return blk, ret
 
     # -- N2 ------------------------------------------------------------------------------
-    def _const_display(self, it, modname, cname):
+    def _const_display(self, it, modname, cname, local_displays=None):
         if isinstance(it, (ast.List, ast.Tuple)):
             return it
+        if isinstance(it, ast.Name) and local_displays and it.id in local_displays:
+            return local_displays[it.id]
+        if isinstance(it, ast.Call) and isinstance(it.func, ast.Name) and it.func.id == "zip" and len(it.args) >= 2 and not it.keywords:
+            ds = [self._const_display(a, modname, cname, local_displays) for a in it.args]
+            if all(d is not None for d in ds) and len({len(d.elts) for d in ds}) == 1:
+                return ast.List(elts=[ast.Tuple(elts=[d.elts[i] for d in ds], ctx=ast.Load()) for i in range(len(ds[0].elts))], ctx=ast.Load())
+            return None
+        if isinstance(it, ast.Call) and isinstance(it.func, ast.Name) and it.func.id == "enumerate" and 1 <= len(it.args) <= 2 and not it.keywords:
+            d = self._const_display(it.args[0], modname, cname, local_displays)
+            start = it.args[1].value if len(it.args) == 2 and isinstance(it.args[1], ast.Constant) and isinstance(it.args[1].value, int) else (0 if len(it.args) == 1 else None)
+            if d is not None and start is not None:
+                return ast.List(elts=[ast.Tuple(elts=[ast.Constant(value=start + i), e], ctx=ast.Load()) for i, e in enumerate(d.elts)], ctx=ast.Load())
+            return None
         q = None
         if isinstance(it, ast.Name):
             q = f"{modname}:{it.id}"
@@ -661,7 +720,7 @@ class Normalizer:
     def _unroll(self, st, modname, cname, state):
         if isinstance(st, ast.AsyncFor) or st.orelse:
             return None
-        disp = self._const_display(st.iter, modname, cname)
+        disp = self._const_display(st.iter, modname, cname, state.get("displays"))
         if disp is None or len(disp.elts) > MAX_UNROLL or any(isinstance(e, ast.Starred) for e in disp.elts):
             return None
         for n in ast.walk(ast.Module(body=st.body, type_ignores=[])):
